@@ -1,8 +1,1312 @@
-//! C05 — not built yet.
+//! C05 — moving down the modulus chain terminates, hits the target, keeps the message.
+//!
+//! E1 sections (one case = ONE (scheme, chain, size, preparation, source level, target, API form, CKKS scale class);
+//! the check loops over the message alphabet inside the case):
+//!  * `ct_mod_switch`    mod_switch_to_next{,_inplace,_new}, mod_switch_to{,_inplace,_new} on ciphertexts of size 2..4
+//!  * `ct_rescale`       rescale_to_next{,_inplace,_new}, rescale_to{,_inplace,_new} (CKKS: accepted; BFV/BGV: refused)
+//!  * `plain_mod_switch` mod_switch_to_next_plain{,_inplace,_new}, mod_switch_plain_to{,_inplace,_new} on NTT-form plaintexts
+//!
+//! Oracle per case: the call returns (watchdog); downward targets are accepted, end on the requested level, are
+//! byte-identical (data + every metadata field) to the composition of single `*_to_next_new` steps (ciphertexts) resp.
+//! to the object created directly at the target level (plaintexts) — which makes the three API forms mutually
+//! byte-identical —, carry the predicted scale (exact f64 sequence) / BGV correction factor, are valid for the
+//! context and decrypt to the reference message (exact in BFV/BGV, within an a-priori bound in CKKS) whenever the
+//! a-priori worst-case noise calculus says decryption must be correct. Equal targets must be the identity (or be
+//! refused); upward / key-level / foreign / past-the-end targets and rescaling outside CKKS must be refused.
+
 use crate::engine::*;
+use crate::he::{self, ct_meta, Kit, ParamSpec, Scheme};
+use crate::refmodel::bigu::{inv_mod_u64, mul_mod, BigU};
+use crate::refmodel::poly::{naive_ntt, pmul};
+use heathcliff::{CKKSEncoder, Ciphertext, ParmsID, Plaintext, ValCheck, PARMS_ID_ZERO};
+use num_complex::Complex;
+use serde::{Deserialize, Serialize};
+use std::time::Duration;
 
-pub fn describe(_rep: &Report) {}
+type C64 = Complex<f64>;
 
-pub fn sections(_cfg: &RunCfg) -> Vec<Box<dyn AnySection>> {
-    vec![]
+pub fn describe(rep: &Report) {
+    rep.set_rule(
+        "case = (parameter set with explicit primes, object kind, operation, API form, ciphertext size, preparation order, source level, \
+         target, CKKS scale class); every ordered (source, target) pair of every chain incl. equal / upward / key-level / zero / foreign ids; \
+         each case loops over 3 message tuples. non-trivial = the case's verdict exercised the property: a downward move whose \
+         message was compared under a valid a-priori noise bound (CKKS: bound <= 2^-4), an identity move, or a demanded refusal.",
+    );
+    rep.assume("a-priori noise calculus (worst case, expansion factor N, every term doubled): decryption is only compared when it says the result must decrypt correctly; otherwise only termination, level, metadata, validity and byte-identity of the forms are judged");
+    rep.assume("source ciphertexts of size 3 and 4 are produced by real multiplications without relinearisation, either at the first level followed by single-level switches, or after switching the fresh operands down (both orders are enumerated)");
+    rep.assume("an equal target (source level == target level) may be the identity or be refused (the statement does not say); an accepted equal target must return the operand unchanged");
+    rep.assume("CKKS mod_switch with a scale that no longer fits a level on the way is documented to be refused; acceptance there is not judged");
+    rep.assume("decryption, encoding/decoding and the forward NTT root tables of the library are used as given (C01, C12, C09)");
+    rep.assume("parameter values: N in {4,8} (16 thorough), the listed prime-size patterns, t in {17, 64, t > q_0}; not all primes / plain moduli");
+}
+
+// ---------------------------------------------------------------------------------------------
+// case
+// ---------------------------------------------------------------------------------------------
+
+#[derive(Serialize, Deserialize, Clone, Copy, Debug, PartialEq, Eq, Hash)]
+pub enum Obj {
+    Ct,
+    Pt,
+}
+#[derive(Serialize, Deserialize, Clone, Copy, Debug, PartialEq, Eq, Hash)]
+pub enum Op {
+    MsNext,
+    MsTo,
+    RsNext,
+    RsTo,
+}
+#[derive(Serialize, Deserialize, Clone, Copy, Debug, PartialEq, Eq, Hash)]
+pub enum Form {
+    Inplace,
+    Dest,
+    New,
+}
+#[derive(Serialize, Deserialize, Clone, Copy, Debug, PartialEq, Eq, Hash)]
+pub enum Prep {
+    /// multiply at the first level, then switch the product down level by level
+    MulThenDown,
+    /// bring the fresh operands to the source level first (CKKS: encode there), multiply there
+    DownThenMul,
+}
+#[derive(Serialize, Deserialize, Clone, Copy, Debug, PartialEq, Eq, Hash)]
+pub enum Tgt {
+    /// the *_to_next entry points have no target argument
+    Next,
+    Level(usize),
+    Key,
+    Zero,
+    Foreign,
+}
+
+#[derive(Serialize, Deserialize, Clone, Debug)]
+pub struct Case {
+    pub spec: ParamSpec,
+    pub obj: Obj,
+    pub op: Op,
+    pub form: Form,
+    /// ciphertext size (2..4); 0 for plaintext cases
+    pub size: usize,
+    pub prep: Prep,
+    /// source data level (0 = first)
+    pub src: usize,
+    pub tgt: Tgt,
+    /// CKKS: log2 of the scale of the fresh encodings (0 otherwise)
+    pub scale_log2: u32,
+}
+
+fn family(obj: Obj, op: Op) -> &'static str {
+    match (obj, op) {
+        (Obj::Ct, Op::MsNext) => "mod_switch_to_next",
+        (Obj::Ct, Op::MsTo) => "mod_switch_to",
+        (Obj::Ct, Op::RsNext) => "rescale_to_next",
+        (Obj::Ct, Op::RsTo) => "rescale_to",
+        (Obj::Pt, Op::MsNext) => "mod_switch_to_next_plain",
+        (Obj::Pt, Op::MsTo) => "mod_switch_plain_to",
+        (Obj::Pt, _) => "rescale_plain(n/a)",
+    }
+}
+
+fn api_name(obj: Obj, op: Op, form: Form) -> String {
+    let f = family(obj, op);
+    match form {
+        Form::Dest => f.to_string(),
+        Form::Inplace => format!("{f}_inplace"),
+        Form::New => format!("{f}_new"),
+    }
+}
+
+/// signature of a hang: the entry-point family and whether the target differs from the source
+pub fn hang_key(c: &Case) -> String {
+    let rel = match c.tgt {
+        Tgt::Next => "next",
+        Tgt::Level(j) if j == c.src => "src==dst",
+        Tgt::Key if c.src == 0 && (c.spec.q.len() == 1 || c.spec.special_enc) => "src==dst",
+        _ => "src!=dst",
+    };
+    format!("{}:{}:nontermination", family(c.obj, c.op), rel)
+}
+
+fn foreign_id() -> ParmsID {
+    let mut f = PARMS_ID_ZERO;
+    for (i, w) in f.iter_mut().enumerate() {
+        *w = 0x0123_4567_89ab_cdefu64.rotate_left(13 * i as u32) ^ (i as u64 + 1);
+    }
+    f
+}
+
+// ---------------------------------------------------------------------------------------------
+// chain model
+// ---------------------------------------------------------------------------------------------
+
+struct Lv {
+    id: ParmsID,
+    q: Vec<u64>,
+    bits: usize,
+    qf: f64,
+}
+
+fn chain_levels(kit: &Kit) -> Result<Vec<Lv>, String> {
+    let ids = kit.levels();
+    let mut v: Vec<Lv> = vec![];
+    for id in ids {
+        let q = kit.moduli_at(&id);
+        let prod = BigU::product(&q);
+        if let Some(prev) = v.last() {
+            if prev.q[..prev.q.len() - 1] != q[..] {
+                return Err(format!("level {:?} does not drop exactly the last prime of {:?}", q, prev.q));
+            }
+        }
+        v.push(Lv { id, bits: prod.bits(), qf: prod.to_f64(), q });
+    }
+    // model of the chain from the specification alone
+    let spec = &kit.spec;
+    let first: Vec<u64> = if spec.q.len() == 1 || spec.special_enc { spec.q.clone() } else { spec.q[..spec.q.len() - 1].to_vec() };
+    if v.is_empty() || v[0].q != first {
+        return Err(format!("first level {:?} is not {:?}", v.first().map(|l| l.q.clone()), first));
+    }
+    Ok(v)
+}
+
+#[derive(Clone, Debug, PartialEq)]
+enum Expect {
+    /// accepted; result on level `to` (> src)
+    Down(usize),
+    /// target is the source level
+    Same,
+    Refuse(&'static str),
+}
+
+fn expect(c: &Case, lv: &[Lv], key_id: &ParmsID) -> Expect {
+    let last = lv.len() - 1;
+    let scheme = c.spec.scheme;
+    let rescale = matches!(c.op, Op::RsNext | Op::RsTo);
+    if rescale && scheme != Scheme::CKKS {
+        return Expect::Refuse("rescale-outside-ckks");
+    }
+    match c.tgt {
+        Tgt::Next => {
+            if c.src == last {
+                Expect::Refuse("past-the-end")
+            } else {
+                Expect::Down(c.src + 1)
+            }
+        }
+        Tgt::Level(j) => {
+            if j > c.src {
+                Expect::Down(j)
+            } else if j == c.src {
+                Expect::Same
+            } else {
+                Expect::Refuse("upward")
+            }
+        }
+        Tgt::Key => {
+            if *key_id == lv[c.src].id {
+                Expect::Same
+            } else {
+                Expect::Refuse("upward-key-level")
+            }
+        }
+        Tgt::Zero => Expect::Refuse("zero-id"),
+        Tgt::Foreign => Expect::Refuse("foreign-id"),
+    }
+}
+
+fn target_id(c: &Case, lv: &[Lv], key_id: &ParmsID) -> ParmsID {
+    match c.tgt {
+        Tgt::Next => PARMS_ID_ZERO,
+        Tgt::Level(j) => lv[j].id,
+        Tgt::Key => *key_id,
+        Tgt::Zero => PARMS_ID_ZERO,
+        Tgt::Foreign => foreign_id(),
+    }
+}
+
+/// the library's closeness test for scales (documented contract of mod_switch in CKKS): floor(log2 scale) < bit count of q_level
+fn scale_fits(scale: f64, lv: &Lv) -> bool {
+    !(scale <= 0.0 || scale.log2() as isize >= lv.bits as isize)
+}
+
+// ---------------------------------------------------------------------------------------------
+// a-priori noise calculus (all bounds generous; every formula already contains a factor 2)
+// ---------------------------------------------------------------------------------------------
+
+/// sum_{i=0..=j} N^i: bound on || sum_i r_i s^i || for ||r_i|| <= 1 and a ternary secret
+fn a_j(n: usize, j: usize) -> f64 {
+    (0..=j).map(|i| (n as f64).powi(i as i32)).sum()
+}
+
+#[derive(Clone, Copy, Debug)]
+struct Nz {
+    /// BFV: invariant noise ||v||; BGV: bound on the centred phase ||c(s)||; CKKS: bound on the error part of the phase
+    v: f64,
+    /// CKKS: bound on the message part of the phase
+    mn: f64,
+    /// CKKS: scale (exact f64 book-keeping)
+    scale: f64,
+    /// BGV: correction factor
+    cf: u64,
+    /// polynomial count - 1
+    j: usize,
+    /// every intermediate state satisfied the validity condition of the calculus
+    ok: bool,
+}
+
+struct Model {
+    scheme: Scheme,
+    n: usize,
+    t: u64,
+}
+
+impl Model {
+    fn e0(&self) -> f64 {
+        // u*e_pk + e_1 + e_2*s (<= 21(2N+1)), rounding of the special-prime division ((1+N)/2), encoding / scaling rounding
+        2.0 * (21.0 * (2.0 * self.n as f64 + 1.0) + (1.0 + self.n as f64) / 2.0 + 2.0)
+    }
+    fn valid(&self, z: &Nz, lv: &Lv) -> bool {
+        match self.scheme {
+            Scheme::BFV => z.v < 0.125,
+            Scheme::BGV => z.v < lv.qf / 4.0,
+            Scheme::CKKS => z.v + z.mn < lv.qf / 4.0,
+        }
+    }
+    /// fresh public-key encryption on level `lv`; zmax = max |slot| (CKKS)
+    fn fresh(&self, lv: &Lv, scale: f64, zmax: f64) -> Nz {
+        let t = self.t as f64;
+        let mut z = Nz { v: 0.0, mn: 0.0, scale: 1.0, cf: 1, j: 1, ok: true };
+        match self.scheme {
+            Scheme::BFV => z.v = 2.0 * t * (self.e0() + t) / lv.qf,
+            Scheme::BGV => z.v = 2.0 * (t * self.e0() + t + (t + 1.0) * (1.0 + self.n as f64)),
+            Scheme::CKKS => {
+                z.v = self.e0() + 1.0;
+                z.mn = scale * zmax + 1.0;
+                z.scale = scale;
+            }
+        }
+        z.ok = self.valid(&z, lv);
+        z
+    }
+    /// one mod_switch_to_next step from `from` to `to`
+    fn switch(&self, a: &Nz, from: &Lv, to: &Lv) -> Nz {
+        let p = *from.q.last().unwrap();
+        let t = self.t as f64;
+        let mut z = *a;
+        match self.scheme {
+            Scheme::BFV => z.v = a.v + t * a_j(self.n, a.j) / to.qf,
+            Scheme::BGV => {
+                z.v = a.v / p as f64 + (t + 1.0) * a_j(self.n, a.j);
+                z.cf = match inv_mod_u64(p % self.t, self.t) {
+                    Some(i) => mul_mod(a.cf, i, self.t),
+                    None => 0,
+                };
+            }
+            Scheme::CKKS => {}
+        }
+        z.ok = a.ok && self.valid(&z, to);
+        z
+    }
+    /// one rescale_to_next step (CKKS)
+    fn rescale(&self, a: &Nz, from: &Lv, to: &Lv) -> Nz {
+        let p = *from.q.last().unwrap() as f64;
+        let mut z = *a;
+        z.v = a.v / p + a_j(self.n, a.j);
+        z.mn = a.mn / p + 1.0;
+        z.scale = a.scale / p;
+        z.ok = a.ok && self.valid(&z, to);
+        z
+    }
+    fn mul(&self, a: &Nz, b: &Nz, lv: &Lv) -> Nz {
+        let n = self.n as f64;
+        let t = self.t as f64;
+        let mut z = *a;
+        z.j = a.j + b.j;
+        match self.scheme {
+            Scheme::BFV => {
+                let rho = 4.0 * (lv.q.len() as f64 + 2.0);
+                z.v = t * n * (a_j(self.n, a.j) / 2.0 + 3.0) * b.v + t * n * (a_j(self.n, b.j) / 2.0 + 3.0) * a.v + t * rho * a_j(self.n, z.j) / lv.qf;
+            }
+            Scheme::BGV => {
+                z.v = n * a.v * b.v;
+                z.cf = mul_mod(a.cf, b.cf, self.t);
+            }
+            Scheme::CKKS => {
+                z.v = n * (a.mn * b.v + b.mn * a.v + a.v * b.v);
+                z.mn = n * a.mn * b.mn;
+                z.scale = a.scale * b.scale;
+            }
+        }
+        z.ok = a.ok && b.ok && self.valid(&z, lv);
+        z
+    }
+}
+
+// ---------------------------------------------------------------------------------------------
+// messages
+// ---------------------------------------------------------------------------------------------
+
+const N_MSG: usize = 3;
+
+fn exact_messages(idx: usize, n: usize, t: u64, seed: u64) -> Vec<Vec<u64>> {
+    match idx {
+        0 => (0..3).map(|k| (0..n).map(|i| h64(&(seed, "c05", k, i)) % t).collect()).collect(),
+        1 => {
+            let mut a = vec![0u64; n];
+            a[n - 1] = t - 1;
+            let mut b = vec![0u64; n];
+            b[1] = 1;
+            let mut c = vec![0u64; n];
+            c[0] = t - 1;
+            c[n / 2] = t / 2;
+            vec![a, b, c]
+        }
+        _ => vec![vec![1; n], vec![t - 1; n], (0..n).map(|i| if i % 2 == 0 { t / 2 } else { (t + 1) / 2 % t }).collect()],
+    }
+}
+
+fn ckks_messages(idx: usize, slots: usize, seed: u64) -> Vec<Vec<C64>> {
+    let c = |re: f64, im: f64| C64::new(re, im);
+    let full: Vec<Vec<C64>> = match idx {
+        0 => vec![
+            vec![c(1.0, 0.0), c(-1.5, 0.0), c(0.5, 0.5), c(0.0, -1.0), c(1.25, -0.25), c(-0.75, 1.0), c(0.0, 0.0), c(1.0, 1.0)],
+            vec![c(0.75, 0.0), c(1.0, 0.0), c(-1.0, 0.5), c(0.0, 1.25), c(-0.5, -0.5), c(1.5, 0.0), c(1.0, 0.0), c(0.0, -1.0)],
+            vec![c(-1.0, 0.0), c(0.5, 0.0), c(0.0, 1.0), c(1.0, 0.0), c(1.0, 1.0), c(-1.0, 0.25), c(0.5, 0.5), c(1.5, 0.0)],
+        ],
+        1 => vec![
+            vec![c(1.0, 0.0), c(0.0, 0.0), c(0.0, 0.0), c(0.0, 0.0), c(0.0, 0.0), c(0.0, 0.0), c(0.0, 0.0), c(0.0, 0.0)],
+            vec![c(0.0, 1.0), c(1.0, 0.0), c(1.0, 0.0), c(1.0, 0.0), c(1.0, 0.0), c(1.0, 0.0), c(1.0, 0.0), c(1.0, 0.0)],
+            vec![c(-1.5, 0.0), c(1.0, 0.0), c(1.0, 0.0), c(1.0, 0.0), c(1.0, 0.0), c(1.0, 0.0), c(1.0, 0.0), c(1.0, 0.0)],
+        ],
+        _ => (0..3)
+            .map(|k| {
+                (0..8)
+                    .map(|i| {
+                        let f = |tag: u8| (h64(&(seed, "c05z", k, i, tag)) % 3001) as f64 / 1000.0 - 1.5;
+                        c(f(0), f(1))
+                    })
+                    .collect()
+            })
+            .collect(),
+    };
+    full.into_iter()
+        .map(|v| {
+            let mut w: Vec<C64> = v.into_iter().cycle().take(slots).collect();
+            w.truncate(slots);
+            w
+        })
+        .collect()
+}
+
+fn zmax(v: &[C64]) -> f64 {
+    v.iter().map(|z| z.norm()).fold(0.0, f64::max)
+}
+
+// ---------------------------------------------------------------------------------------------
+// helpers
+// ---------------------------------------------------------------------------------------------
+
+fn ct_diff(a: &Ciphertext, b: &Ciphertext) -> Option<String> {
+    if a.parms_id() != b.parms_id() {
+        return Some("parms_id".into());
+    }
+    if a.size() != b.size() || a.coeff_modulus_size() != b.coeff_modulus_size() || a.poly_modulus_degree() != b.poly_modulus_degree() {
+        return Some("shape".into());
+    }
+    if a.is_ntt_form() != b.is_ntt_form() {
+        return Some("is_ntt_form".into());
+    }
+    if a.scale().to_bits() != b.scale().to_bits() {
+        return Some("scale".into());
+    }
+    if a.correction_factor() != b.correction_factor() {
+        return Some("correction_factor".into());
+    }
+    if a.data() != b.data() {
+        return Some("data".into());
+    }
+    None
+}
+
+fn pt_diff(a: &Plaintext, b: &Plaintext) -> Option<String> {
+    if a.parms_id() != b.parms_id() {
+        return Some("parms_id".into());
+    }
+    if a.coeff_count() != b.coeff_count() {
+        return Some("coeff_count".into());
+    }
+    if a.scale().to_bits() != b.scale().to_bits() {
+        return Some("scale".into());
+    }
+    if a.data() != b.data() {
+        return Some("data".into());
+    }
+    None
+}
+
+fn pt_meta(p: &Plaintext) -> String {
+    format!("coeff_count={} len={} scale={:e} ntt={} id={:x?}", p.coeff_count(), p.data().len(), p.scale(), p.is_ntt_form(), &p.parms_id()[..1])
+}
+
+/// result of one API call; for the in-place forms also whether a REFUSED call left its operand changed (observed, not judged)
+struct Called<T> {
+    res: Result<T, String>,
+    clobbered: Option<bool>,
+}
+
+fn call_ct(kit: &Kit, op: Op, form: Form, src: &Ciphertext, tid: &ParmsID, junk: &Ciphertext) -> Called<Ciphertext> {
+    let ev = &kit.eval;
+    match form {
+        Form::Inplace => {
+            let mut x = src.clone();
+            let r = guard(|| match op {
+                Op::MsNext => ev.mod_switch_to_next_inplace(&mut x),
+                Op::MsTo => ev.mod_switch_to_inplace(&mut x, tid),
+                Op::RsNext => ev.rescale_to_next_inplace(&mut x),
+                Op::RsTo => ev.rescale_to_inplace(&mut x, tid),
+            });
+            match r {
+                Ok(()) => Called { res: Ok(x), clobbered: None },
+                Err(p) => Called { res: Err(p), clobbered: Some(ct_diff(&x, src).is_some()) },
+            }
+        }
+        Form::Dest => {
+            let mut d = junk.clone();
+            let r = guard(|| match op {
+                Op::MsNext => ev.mod_switch_to_next(src, &mut d),
+                Op::MsTo => ev.mod_switch_to(src, tid, &mut d),
+                Op::RsNext => ev.rescale_to_next(src, &mut d),
+                Op::RsTo => ev.rescale_to(src, tid, &mut d),
+            });
+            Called { res: r.map(|_| d), clobbered: None }
+        }
+        Form::New => Called {
+            res: guard(|| match op {
+                Op::MsNext => ev.mod_switch_to_next_new(src),
+                Op::MsTo => ev.mod_switch_to_new(src, tid),
+                Op::RsNext => ev.rescale_to_next_new(src),
+                Op::RsTo => ev.rescale_to_new(src, tid),
+            }),
+            clobbered: None,
+        },
+    }
+}
+
+fn call_pt(kit: &Kit, op: Op, form: Form, src: &Plaintext, tid: &ParmsID, junk: &Plaintext) -> Called<Plaintext> {
+    let ev = &kit.eval;
+    assert!(matches!(op, Op::MsNext | Op::MsTo), "harness: no rescale for plaintexts");
+    match form {
+        Form::Inplace => {
+            let mut x = src.clone();
+            let r = guard(|| match op {
+                Op::MsNext => ev.mod_switch_to_next_plain_inplace(&mut x),
+                _ => ev.mod_switch_plain_to_inplace(&mut x, tid),
+            });
+            match r {
+                Ok(()) => Called { res: Ok(x), clobbered: None },
+                Err(p) => Called { res: Err(p), clobbered: Some(pt_diff(&x, src).is_some()) },
+            }
+        }
+        Form::Dest => {
+            let mut d = junk.clone();
+            let r = guard(|| match op {
+                Op::MsNext => ev.mod_switch_to_next_plain(src, &mut d),
+                _ => ev.mod_switch_plain_to(src, tid, &mut d),
+            });
+            Called { res: r.map(|_| d), clobbered: None }
+        }
+        Form::New => Called {
+            res: guard(|| match op {
+                Op::MsNext => ev.mod_switch_to_next_plain_new(src),
+                _ => ev.mod_switch_plain_to_new(src, tid),
+            }),
+            clobbered: None,
+        },
+    }
+}
+
+struct Ctxt<'a> {
+    c: &'a Case,
+    sec: &'static str,
+    api: String,
+}
+
+impl Ctxt<'_> {
+    fn key(&self, class: &str, what: &str) -> String {
+        format!("{}:{}:{:?}:{}:{}", self.sec, self.api, self.c.spec.scheme, class, what)
+    }
+    fn setup_key(&self, step: &str, what: &str) -> String {
+        format!("{}:setup:{:?}:{}:{}", self.sec, self.c.spec.scheme, step, what)
+    }
+}
+
+fn rel_class(e: &Expect, src: usize) -> String {
+    match e {
+        Expect::Down(t) if *t == src + 1 => "down1".into(),
+        Expect::Down(_) => "downN".into(),
+        Expect::Same => "same".into(),
+        Expect::Refuse(r) => (*r).into(),
+    }
+}
+
+// ---------------------------------------------------------------------------------------------
+// ciphertext cases
+// ---------------------------------------------------------------------------------------------
+
+/// source ciphertext of the case for one message tuple, with its model state, the junk destination and
+/// the reference message
+struct Source {
+    ct: Ciphertext,
+    nz: Nz,
+    junk: Ciphertext,
+    exact: Vec<u64>,
+    slots: Vec<C64>,
+}
+
+fn build_source(cx: &Ctxt, kit: &Kit, enc: Option<&CKKSEncoder>, lv: &[Lv], model: &Model, midx: usize, seed: u64) -> Result<Source, CaseOut> {
+    let c = cx.c;
+    let scheme = c.spec.scheme;
+    let k = c.size;
+    let n = c.spec.n;
+    let s = c.src;
+    let setup_panic = |step: &str, p: String| CaseOut::fail(cx.setup_key(step, &format!("panic:{}", panic_class(&p))), format!("{step} succeeds on valid operands"), p);
+    let scale = (2.0f64).powi(c.scale_log2 as i32);
+
+    // fresh operands
+    let mut fresh: Vec<Ciphertext> = vec![];
+    let mut nzs: Vec<Nz> = vec![];
+    let mut exact = vec![];
+    let mut slots = vec![];
+    let enc_level = if scheme == Scheme::CKKS && c.prep == Prep::DownThenMul { s } else { 0 };
+    if scheme == Scheme::CKKS {
+        let ms = ckks_messages(midx, n / 2, seed);
+        let mut prod: Vec<C64> = vec![C64::new(1.0, 0.0); n / 2];
+        for m in ms.iter().take(k - 1) {
+            let pt = guard(|| enc.unwrap().encode_c64_array_new(m, Some(lv[enc_level].id), scale)).map_err(|p| setup_panic("encode", p))?;
+            let ct = guard(|| kit.enc.encrypt_new(&pt)).map_err(|p| setup_panic("encrypt", p))?;
+            fresh.push(ct);
+            nzs.push(model.fresh(&lv[enc_level], scale, zmax(m)));
+            for (a, b) in prod.iter_mut().zip(m) {
+                *a *= b;
+            }
+        }
+        slots = prod;
+    } else {
+        let ms = exact_messages(midx, n, c.spec.t, seed);
+        let mut prod: Vec<u64> = {
+            let mut one = vec![0u64; n];
+            one[0] = 1;
+            one
+        };
+        for m in ms.iter().take(k - 1) {
+            let pt = kit.plain(m);
+            let ct = guard(|| kit.enc.encrypt_new(&pt)).map_err(|p| setup_panic("encrypt", p))?;
+            fresh.push(ct);
+            nzs.push(model.fresh(&lv[0], 1.0, 0.0));
+            prod = pmul(&prod, m, c.spec.t);
+        }
+        exact = prod;
+    }
+    let junk = fresh[0].clone();
+
+    let down = |ct: &Ciphertext, nz: &Nz, from: usize, to: usize| -> Result<(Ciphertext, Nz), CaseOut> {
+        let mut ct = ct.clone();
+        let mut nz = *nz;
+        for l in from..to {
+            ct = guard(|| kit.eval.mod_switch_to_next_new(&ct)).map_err(|p| setup_panic("mod_switch_to_next_new", p))?;
+            nz = model.switch(&nz, &lv[l], &lv[l + 1]);
+        }
+        Ok((ct, nz))
+    };
+    let mul_all = |cts: &[Ciphertext], nzs: &[Nz], level: usize| -> Result<(Ciphertext, Nz), CaseOut> {
+        let mut acc = cts[0].clone();
+        let mut nz = nzs[0];
+        for (ct, z) in cts.iter().zip(nzs).skip(1) {
+            acc = guard(|| kit.eval.multiply_new(&acc, ct)).map_err(|p| setup_panic("multiply_new", p))?;
+            nz = model.mul(&nz, z, &lv[level]);
+        }
+        Ok((acc, nz))
+    };
+
+    let (ct, nz) = match c.prep {
+        Prep::MulThenDown => {
+            let (p, z) = mul_all(&fresh, &nzs, 0)?;
+            down(&p, &z, 0, s)?
+        }
+        Prep::DownThenMul => {
+            let mut cts = vec![];
+            let mut zs = vec![];
+            for (ct, z) in fresh.iter().zip(&nzs) {
+                let (a, b) = down(ct, z, enc_level, s)?;
+                cts.push(a);
+                zs.push(b);
+            }
+            mul_all(&cts, &zs, s)?
+        }
+    };
+    if *ct.parms_id() != lv[s].id || ct.size() != k {
+        return Err(CaseOut::fail(
+            cx.setup_key("source", "wrong-level-or-size"),
+            format!("source of size {k} on level {s}"),
+            format!("{} level-match={}", ct_meta(&ct), *ct.parms_id() == lv[s].id),
+        ));
+    }
+    Ok(Source { ct, nz, junk, exact, slots })
+}
+
+/// compares the decryption of `ct` with the reference message; Ok(Some(err)) = judged (CKKS: max error), Ok(None) = bound not met
+fn judge_message(cx: &Ctxt, kit: &Kit, enc: Option<&CKKSEncoder>, ct: &Ciphertext, nz: &Nz, src: &Source, stage: &str) -> Result<Option<f64>, CaseOut> {
+    if !nz.ok {
+        return Ok(None);
+    }
+    let scheme = cx.c.spec.scheme;
+    let n = cx.c.spec.n as f64;
+    let key = |what: &str| if stage == "source" { cx.setup_key("source", what) } else { cx.key(stage, what) };
+    match scheme {
+        Scheme::BFV | Scheme::BGV => match guard(|| kit.dec_coeffs(ct)) {
+            Err(p) => Err(CaseOut::fail(key(&format!("decrypt-panic:{}", panic_class(&p))), "result decrypts", p)),
+            Ok(d) => {
+                if d != src.exact {
+                    Err(CaseOut::fail(
+                        key("wrong-message"),
+                        format!("{:?} (a-priori noise {:.3e}, must decrypt exactly)", src.exact, nz.v),
+                        format!("{:?}; {}", d, ct_meta(ct)),
+                    ))
+                } else {
+                    Ok(Some(0.0))
+                }
+            }
+        },
+        Scheme::CKKS => {
+            let r = guard(|| enc.unwrap().decode_new(&kit.dec.decrypt_new(ct)));
+            match r {
+                Err(p) => Err(CaseOut::fail(key(&format!("decrypt-panic:{}", panic_class(&p))), "result decrypts and decodes", p)),
+                Ok(d) => {
+                    let zm = zmax(&src.slots);
+                    let bound = n * nz.v / nz.scale + (2.0f64).powi(-30) * (1.0 + zm);
+                    let err = d.iter().zip(&src.slots).map(|(a, b)| (a - b).norm()).fold(0.0, f64::max);
+                    if !(err <= bound) {
+                        Err(CaseOut::fail(
+                            key("wrong-message"),
+                            format!("{:?} within {:.3e}", src.slots, bound),
+                            format!("{:?} (error {:.3e}); {}", d, err, ct_meta(ct)),
+                        ))
+                    } else {
+                        Ok(Some(bound))
+                    }
+                }
+            }
+        }
+    }
+}
+
+fn run_ct(c: &Case, seed: u64, sec: &'static str) -> CaseOut {
+    he::env_real(seed, h64(&serde_json::to_string(c).unwrap_or_default()));
+    let cx = Ctxt { c, sec, api: api_name(c.obj, c.op, c.form) };
+    let kit = match guard(|| Kit::new(&c.spec)) {
+        Ok(Ok(k)) => k,
+        Ok(Err(e)) => return CaseOut::skip(&format!("library rejects the parameter set: {e}")),
+        Err(_) => return CaseOut::skip("library rejects the parameter set (panic)"),
+    };
+    let lv = match chain_levels(&kit) {
+        Ok(l) => l,
+        Err(e) => return CaseOut::fail(cx.setup_key("chain", "malformed"), "each level drops exactly the last prime of the previous one", e),
+    };
+    if c.src >= lv.len() || matches!(c.tgt, Tgt::Level(j) if j >= lv.len()) {
+        return CaseOut::skip("level outside the chain the library built");
+    }
+    let scheme = c.spec.scheme;
+    let enc = if scheme == Scheme::CKKS { Some(CKKSEncoder::new(kit.ctx.clone())) } else { None };
+    let model = Model { scheme, n: c.spec.n, t: c.spec.t.max(1) };
+    let key_id = *kit.ctx.key_parms_id();
+    let exp = expect(c, &lv, &key_id);
+    let tid = target_id(c, &lv, &key_id);
+    let rel = rel_class(&exp, c.src);
+    let rescale = matches!(c.op, Op::RsNext | Op::RsTo);
+
+    let mut steps = 0u64;
+    let mut meaningful = 0u32;
+    let mut obs_class = String::new();
+    for midx in 0..N_MSG {
+        let src = match build_source(&cx, &kit, enc.as_ref(), &lv, &model, midx, seed) {
+            Ok(s) => s,
+            Err(out) => return out,
+        };
+        // the source itself must carry the message (otherwise nothing below can be attributed to the switch)
+        if let Err(out) = judge_message(&cx, &kit, enc.as_ref(), &src.ct, &src.nz, &src, "source") {
+            return out;
+        }
+        if scheme == Scheme::BGV && src.ct.correction_factor() != src.nz.cf {
+            return CaseOut::fail(cx.setup_key("source", "correction-factor"), format!("{}", src.nz.cf), format!("{}", src.ct.correction_factor()));
+        }
+        if scheme == Scheme::CKKS && src.ct.scale().to_bits() != src.nz.scale.to_bits() {
+            return CaseOut::fail(cx.setup_key("source", "scale"), format!("{:e}", src.nz.scale), format!("{:e}", src.ct.scale()));
+        }
+
+        let called = call_ct(&kit, c.op, c.form, &src.ct, &tid, &src.junk);
+        let clob = match called.clobbered {
+            Some(true) => ":operand-changed",
+            Some(false) => ":operand-intact",
+            None => "",
+        };
+        let res = called.res;
+        steps += 1;
+        match &exp {
+            Expect::Refuse(why) => match res {
+                Err(p) => obs_class = format!("refused:{}{clob}", panic_class(&p)),
+                Ok(r) => {
+                    return CaseOut::fail(
+                        cx.key(&rel, "accepted"),
+                        format!("refusal ({why}); source level {} of {}, target {:?}", c.src, lv.len(), c.tgt),
+                        format!("returned {}", ct_meta(&r)),
+                    )
+                }
+            },
+            Expect::Same => match res {
+                Err(p) => obs_class = format!("refused-equal:{}", panic_class(&p)),
+                Ok(r) => {
+                    if let Some(d) = ct_diff(&r, &src.ct) {
+                        return CaseOut::fail(
+                            cx.key(&rel, &format!("not-identity:{d}")),
+                            format!("the operand unchanged ({})", ct_meta(&src.ct)),
+                            ct_meta(&r),
+                        );
+                    }
+                    obs_class = "identity".into();
+                    meaningful += 1;
+                }
+            },
+            Expect::Down(to) => {
+                // reference: composition of single-level `_new` steps + model state
+                let mut nz = src.nz;
+                let mut scale_edge = false;
+                for l in c.src..*to {
+                    if rescale {
+                        nz = model.rescale(&nz, &lv[l], &lv[l + 1]);
+                    } else {
+                        if scheme == Scheme::CKKS && !scale_fits(nz.scale, &lv[l + 1]) {
+                            scale_edge = true;
+                        }
+                        nz = model.switch(&nz, &lv[l], &lv[l + 1]);
+                    }
+                }
+                if scale_edge {
+                    // documented refusal (scale out of bounds on the way); acceptance is not judged
+                    obs_class = match &res {
+                        Err(p) => format!("scale-edge:refused:{}", panic_class(p)),
+                        Ok(_) => "scale-edge:accepted".into(),
+                    };
+                    continue;
+                }
+                let r = match res {
+                    Ok(r) => r,
+                    Err(p) => {
+                        return CaseOut::fail(
+                            cx.key(&rel, &format!("panic:{}", panic_class(&p))),
+                            format!("accepted: source level {} -> level {to} of {}, size {}", c.src, lv.len(), c.size),
+                            p,
+                        )
+                    }
+                };
+                if *r.parms_id() != lv[*to].id {
+                    let at = lv.iter().position(|l| l.id == *r.parms_id());
+                    return CaseOut::fail(cx.key(&rel, "wrong-level"), format!("result on level {to}"), format!("result on level {at:?}; {}", ct_meta(&r)));
+                }
+                let mut reference = src.ct.clone();
+                for _ in c.src..*to {
+                    let step = guard(|| if rescale { kit.eval.rescale_to_next_new(&reference) } else { kit.eval.mod_switch_to_next_new(&reference) });
+                    steps += 1;
+                    reference = match step {
+                        Ok(x) => x,
+                        Err(p) => {
+                            return CaseOut::fail(
+                                cx.key(&rel, &format!("reference-step-panic:{}", panic_class(&p))),
+                                "every single-level step towards the target is accepted",
+                                p,
+                            )
+                        }
+                    };
+                }
+                if let Some(d) = ct_diff(&r, &reference) {
+                    return CaseOut::fail(
+                        cx.key(&rel, &format!("forms-differ:{d}")),
+                        format!("byte-identical to the composition of single-level _new steps: {}", ct_meta(&reference)),
+                        ct_meta(&r),
+                    );
+                }
+                // predicted metadata
+                let exp_ntt = scheme != Scheme::BFV;
+                let exp_scale = if scheme == Scheme::CKKS { nz.scale } else { 1.0 };
+                let exp_cf = if scheme == Scheme::BGV { nz.cf } else { 1 };
+                if r.size() != c.size || r.is_ntt_form() != exp_ntt || r.coeff_modulus_size() != lv[*to].q.len() || r.poly_modulus_degree() != c.spec.n {
+                    return CaseOut::fail(cx.key(&rel, "metadata"), format!("size={} cms={} ntt={}", c.size, lv[*to].q.len(), exp_ntt), ct_meta(&r));
+                }
+                if r.scale().to_bits() != exp_scale.to_bits() {
+                    return CaseOut::fail(
+                        cx.key(&rel, "scale"),
+                        format!("{:e} (source scale {:e}{})", exp_scale, src.nz.scale, if rescale { " divided by each dropped prime in turn" } else { " unchanged" }),
+                        format!("{:e}", r.scale()),
+                    );
+                }
+                if r.correction_factor() != exp_cf {
+                    return CaseOut::fail(
+                        cx.key(&rel, "correction-factor"),
+                        format!("{exp_cf} = {} * prod q_last^-1 mod {}", src.nz.cf, c.spec.t),
+                        format!("{}", r.correction_factor()),
+                    );
+                }
+                match guard(|| r.is_valid_for(&kit.ctx)) {
+                    Ok(true) => {}
+                    Ok(false) => return CaseOut::fail(cx.key(&rel, "invalid-result"), "is_valid_for(context)", ct_meta(&r)),
+                    Err(p) => return CaseOut::fail(cx.key(&rel, &format!("valcheck-panic:{}", panic_class(&p))), "is_valid_for(context)", p),
+                }
+                match judge_message(&cx, &kit, enc.as_ref(), &r, &nz, &src, &rel) {
+                    Err(out) => return out,
+                    Ok(Some(b)) => {
+                        steps += 1;
+                            if b <= 0.0625 {
+                            meaningful += 1;
+                        }
+                        obs_class = "accepted:message-judged".into();
+                    }
+                    Ok(None) => obs_class = "accepted:message-unjudged".into(),
+                }
+            }
+        }
+        if matches!(exp, Expect::Refuse(_)) {
+            meaningful += 1;
+        }
+    }
+    if std::env::var("VERIF_C05_DEBUG").is_ok() {
+        eprintln!("DBG {} {:?} {} size={} {:?} src={} L={} {} {} meaningful={}", sec, scheme, cx.api, c.size, c.prep, c.src, lv.len(), rel, obs_class, meaningful);
+    }
+    CaseOut::pass(meaningful > 0, h64(&(sec, c.op, c.form, scheme, rel.as_str(), obs_class.as_str(), meaningful > 0)), steps)
+}
+
+// ---------------------------------------------------------------------------------------------
+// plaintext cases
+// ---------------------------------------------------------------------------------------------
+
+fn make_plain(kit: &Kit, enc: Option<&CKKSEncoder>, c: &Case, lv: &Lv, midx: usize, seed: u64) -> Result<(Plaintext, Vec<u64>, Vec<C64>), String> {
+    if c.spec.scheme == Scheme::CKKS {
+        let m = ckks_messages(midx, c.spec.n / 2, seed).remove(0);
+        let scale = (2.0f64).powi(c.scale_log2 as i32);
+        let p = guard(|| enc.unwrap().encode_c64_array_new(&m, Some(lv.id), scale))?;
+        Ok((p, vec![], m))
+    } else {
+        let m = exact_messages(midx, c.spec.n, c.spec.t, seed).remove(if midx == 1 { 2 } else { 0 });
+        let pt = kit.plain(&m);
+        let p = guard(|| kit.eval.transform_plain_to_ntt_new(&pt, &lv.id))?;
+        Ok((p, m, vec![]))
+    }
+}
+
+fn run_pt(c: &Case, seed: u64, sec: &'static str) -> CaseOut {
+    he::env_real(seed, h64(&serde_json::to_string(c).unwrap_or_default()));
+    let cx = Ctxt { c, sec, api: api_name(c.obj, c.op, c.form) };
+    let kit = match guard(|| Kit::new(&c.spec)) {
+        Ok(Ok(k)) => k,
+        Ok(Err(e)) => return CaseOut::skip(&format!("library rejects the parameter set: {e}")),
+        Err(_) => return CaseOut::skip("library rejects the parameter set (panic)"),
+    };
+    let lv = match chain_levels(&kit) {
+        Ok(l) => l,
+        Err(e) => return CaseOut::fail(cx.setup_key("chain", "malformed"), "each level drops exactly the last prime of the previous one", e),
+    };
+    if c.src >= lv.len() || matches!(c.tgt, Tgt::Level(j) if j >= lv.len()) {
+        return CaseOut::skip("level outside the chain the library built");
+    }
+    let scheme = c.spec.scheme;
+    let n = c.spec.n;
+    let enc = if scheme == Scheme::CKKS { Some(CKKSEncoder::new(kit.ctx.clone())) } else { None };
+    let key_id = *kit.ctx.key_parms_id();
+    let exp = expect(c, &lv, &key_id);
+    let tid = target_id(c, &lv, &key_id);
+    let rel = rel_class(&exp, c.src);
+    let mut steps = 0u64;
+    let mut meaningful = 0u32;
+    let mut obs_class = String::new();
+    for midx in 0..N_MSG {
+        let (src, exact, slots) = match make_plain(&kit, enc.as_ref(), c, &lv[c.src], midx, seed) {
+            Ok(x) => x,
+            Err(p) => return CaseOut::fail(cx.setup_key("make-plain", &format!("panic:{}", panic_class(&p))), "an NTT-form plaintext on the source level can be created", p),
+        };
+        // junk destination: a plaintext of another level / message
+        let junk = match make_plain(&kit, enc.as_ref(), c, &lv[0], (midx + 1) % N_MSG, seed) {
+            Ok(x) => x.0,
+            Err(p) => return CaseOut::fail(cx.setup_key("make-plain", &format!("panic:{}", panic_class(&p))), "an NTT-form plaintext on the first level can be created", p),
+        };
+        let called = call_pt(&kit, c.op, c.form, &src, &tid, &junk);
+        let clob = match called.clobbered {
+            Some(true) => ":operand-changed",
+            Some(false) => ":operand-intact",
+            None => "",
+        };
+        let res = called.res;
+        steps += 1;
+        match &exp {
+            Expect::Refuse(why) => match res {
+                Err(p) => {
+                    obs_class = format!("refused:{}{clob}", panic_class(&p));
+                    meaningful += 1;
+                }
+                Ok(r) => return CaseOut::fail(cx.key(&rel, "accepted"), format!("refusal ({why}); source level {} of {}, target {:?}", c.src, lv.len(), c.tgt), format!("returned {}", pt_meta(&r))),
+            },
+            Expect::Same => match res {
+                Err(p) => obs_class = format!("refused-equal:{}", panic_class(&p)),
+                Ok(r) => {
+                    if let Some(d) = pt_diff(&r, &src) {
+                        return CaseOut::fail(cx.key(&rel, &format!("not-identity:{d}")), format!("the operand unchanged ({})", pt_meta(&src)), pt_meta(&r));
+                    }
+                    obs_class = "identity".into();
+                    meaningful += 1;
+                }
+            },
+            Expect::Down(to) => {
+                let scale_edge = scheme == Scheme::CKKS && (c.src + 1..=*to).any(|l| !scale_fits(src.scale(), &lv[l]));
+                if scale_edge {
+                    obs_class = match &res {
+                        Err(p) => format!("scale-edge:refused:{}", panic_class(p)),
+                        Ok(_) => "scale-edge:accepted".into(),
+                    };
+                    continue;
+                }
+                let r = match res {
+                    Ok(r) => r,
+                    Err(p) => return CaseOut::fail(cx.key(&rel, &format!("panic:{}", panic_class(&p))), format!("accepted: source level {} -> level {to} of {}", c.src, lv.len()), p),
+                };
+                if *r.parms_id() != lv[*to].id {
+                    let at = lv.iter().position(|l| l.id == *r.parms_id());
+                    return CaseOut::fail(cx.key(&rel, "wrong-level"), format!("result on level {to}"), format!("result on level {at:?}; {}", pt_meta(&r)));
+                }
+                // reference: the same message brought to NTT form directly on the target level
+                let reference = match make_plain(&kit, enc.as_ref(), c, &lv[*to], midx, seed) {
+                    Ok(x) => x.0,
+                    Err(p) => return CaseOut::fail(cx.setup_key("make-plain", &format!("panic:{}", panic_class(&p))), "an NTT-form plaintext on the target level can be created", p),
+                };
+                steps += 1;
+                if let Some(d) = pt_diff(&r, &reference) {
+                    return CaseOut::fail(
+                        cx.key(&rel, &format!("differs-from-direct:{d}")),
+                        format!("byte-identical to the plaintext created directly on level {to}: {}", pt_meta(&reference)),
+                        pt_meta(&r),
+                    );
+                }
+                match guard(|| r.is_valid_for(&kit.ctx)) {
+                    Ok(true) => {}
+                    Ok(false) => return CaseOut::fail(cx.key(&rel, "invalid-result"), "is_valid_for(context)", pt_meta(&r)),
+                    Err(p) => return CaseOut::fail(cx.key(&rel, &format!("valcheck-panic:{}", panic_class(&p))), "is_valid_for(context)", p),
+                }
+                // the message itself, independently of the library's transforms
+                if scheme == Scheme::CKKS {
+                    match guard(|| enc.as_ref().unwrap().decode_new(&r)) {
+                        Err(p) => return CaseOut::fail(cx.key(&rel, &format!("decode-panic:{}", panic_class(&p))), "result decodes", p),
+                        Ok(d) => {
+                            let bound = n as f64 * 1.0 / r.scale() + (2.0f64).powi(-30) * (1.0 + zmax(&slots));
+                            let err = d.iter().zip(&slots).map(|(a, b)| (a - b).norm()).fold(0.0, f64::max);
+                            if !(err <= bound) {
+                                return CaseOut::fail(cx.key(&rel, "wrong-message"), format!("{slots:?} within {bound:.3e}"), format!("{d:?} (error {err:.3e})"));
+                            }
+                        }
+                    }
+                } else {
+                    let t = c.spec.t;
+                    let ctxd = kit.ctx.get_context_data(&lv[*to].id).unwrap();
+                    for (i, &q) in lv[*to].q.iter().enumerate() {
+                        let lifted: Vec<u64> = exact.iter().map(|&m| if m >= (t + 1) / 2 { ((m % q) + q - (t % q)) % q } else { m % q }).collect();
+                        let psi = ctxd.small_ntt_tables()[i].root();
+                        let want = naive_ntt(&lifted, psi, q);
+                        let got = &r.data()[i * n..(i + 1) * n];
+                        if got != &want[..] {
+                            return CaseOut::fail(
+                                cx.key(&rel, "wrong-message"),
+                                format!("component {i} (q={q}) = NTT of the centred lift of {exact:?}: {want:?}"),
+                                format!("{got:?}"),
+                            );
+                        }
+                    }
+                }
+                steps += 1;
+                meaningful += 1;
+                obs_class = "accepted:message-judged".into();
+            }
+        }
+    }
+    if std::env::var("VERIF_C05_DEBUG").is_ok() {
+        eprintln!("DBG {} {:?} {} size={} {:?} src={} L={} {} {} meaningful={}", sec, scheme, cx.api, c.size, c.prep, c.src, lv.len(), rel, obs_class, meaningful);
+    }
+    CaseOut::pass(meaningful > 0, h64(&(sec, c.op, c.form, scheme, rel.as_str(), obs_class.as_str())), steps)
+}
+
+// ---------------------------------------------------------------------------------------------
+// watchdog
+// ---------------------------------------------------------------------------------------------
+//
+// Inside an E1 run the engine's per-case deadline is the watchdog (it abandons the hung worker, reports the case under
+// `hang_key` and stops the section after 12 hangs). `--replay` and the regression replays of `replays_fixed/` execute the
+// check on the main thread WITHOUT any deadline, so there the case is run on a helper thread and given up after
+// REPLAY_DEADLINE - otherwise re-introducing a non-termination defect would hang the whole check instead of failing it.
+// The deadlines are wall-clock and deliberately far above the 3 s one would like (a case takes ~5 ms): with the machine
+// oversubscribed (load > 4 x cores, observed while other checks were running) a healthy case was once seen to stall > 3 s.
+
+const ENGINE_DEADLINE: Duration = Duration::from_secs(20);
+const REPLAY_DEADLINE: Duration = Duration::from_secs(30);
+
+fn run_case(c: &Case, seed: u64, sec: &'static str) -> CaseOut {
+    let o = match c.obj {
+        Obj::Ct => run_ct(c, seed, sec),
+        Obj::Pt => run_pt(c, seed, sec),
+    };
+    if let (Verdict::Skip(w), true) = (&o.verdict, std::env::var("VERIF_C05_DEBUG").is_ok()) {
+        eprintln!("DBGSKIP {} {} {w}", sec, c.spec.label());
+    }
+    o
+}
+
+fn watched(c: &Case, seed: u64, sec: &'static str) -> CaseOut {
+    if std::thread::current().name() != Some("main") {
+        // engine worker (or determinism self-test thread): the engine watches the clock
+        return run_case(c, seed, sec);
+    }
+    let (tx, rx) = std::sync::mpsc::channel();
+    let cc = c.clone();
+    let spawned = std::thread::Builder::new().stack_size(64 << 20).spawn(move || {
+        heathcliff_thread_init();
+        let r = guard(|| run_case(&cc, seed, sec));
+        let _ = tx.send(r);
+    });
+    if let Err(e) = spawned {
+        panic!("harness: cannot spawn case thread: {e}");
+    }
+    match rx.recv_timeout(REPLAY_DEADLINE) {
+        Ok(Ok(o)) => o,
+        Ok(Err(p)) => CaseOut::fail(format!("unexpected-panic:{}", panic_class(&p)), "no panic outside the guarded subject calls", p),
+        Err(std::sync::mpsc::RecvTimeoutError::Timeout) => CaseOut::fail(
+            hang_key(c),
+            format!("the call returns (deadline {:?}; the whole case takes milliseconds)", REPLAY_DEADLINE),
+            "still running at the deadline: non-termination",
+        ),
+        Err(std::sync::mpsc::RecvTimeoutError::Disconnected) => CaseOut::fail("unexpected-panic:case-thread-died", "case thread reports a result", "channel closed"),
+    }
+}
+
+// ---------------------------------------------------------------------------------------------
+// enumeration
+// ---------------------------------------------------------------------------------------------
+
+fn gcd(mut a: u64, mut b: u64) -> u64 {
+    while b != 0 {
+        (a, b) = (b, a % b);
+    }
+    a
+}
+
+/// (N, prime bit sizes at the key level, special_enc)
+fn chain_shapes(thorough: bool) -> Vec<(usize, Vec<usize>, bool)> {
+    let mut v: Vec<(usize, Vec<usize>, bool)> = vec![
+        (8, vec![40], false),
+        (8, vec![40, 40], false),
+        (4, vec![36, 36, 36], false),
+        (8, vec![59, 59, 59], false),
+        (8, vec![30, 35, 40, 45], false),
+        (4, vec![45, 40, 35, 30], false),
+        (8, vec![40, 40, 40, 40, 40], false),
+        (4, vec![50, 30, 50, 30, 50], false),
+        (8, vec![40, 40, 40], true),
+    ];
+    if thorough {
+        v.extend([
+            (4, vec![30], false),
+            (4, vec![30, 30], false),
+            (8, vec![30, 30, 30, 30, 30], false),
+            (16, vec![40, 40, 40, 40], false),
+            (16, vec![59, 50, 40, 30, 59], false),
+            (8, vec![59, 59, 59, 59, 59, 59], false),
+            (4, vec![40, 40, 40, 40, 40, 40, 40], false),
+            (8, vec![30, 36, 42, 48, 54, 59, 59], false),
+            (8, vec![59, 54, 48, 42, 36, 30, 59], false),
+            (16, vec![36, 36, 36, 36, 36, 36, 36], false),
+            (4, vec![45, 45, 45, 45], true),
+            (16, vec![30, 40, 50, 59, 59], false),
+            (4, vec![59, 20, 59, 20, 59], false),
+            (8, vec![25, 25, 25, 25, 25, 25, 25], false),
+        ]);
+    }
+    v.sort_by_key(|(n, b, sp)| (b.len(), *sp, *n));
+    v
+}
+
+fn specs(thorough: bool) -> Vec<ParamSpec> {
+    let mut out = vec![];
+    for (n, bits, sp) in chain_shapes(thorough) {
+        let q = he::chain(n, &bits);
+        for scheme in Scheme::all() {
+            let ts: Vec<u64> = if scheme == Scheme::CKKS {
+                vec![0]
+            } else if thorough {
+                vec![17, 64, 257, 3]
+            } else {
+                vec![17, 64]
+            };
+            for t in ts {
+                let mut s = ParamSpec::new(scheme, n, q.clone(), t);
+                s.special_enc = sp;
+                out.push(s);
+            }
+        }
+    }
+    // plain modulus above the smallest coefficient prime (multi-precision plain lift, t mod q_i reductions in BGV)
+    for (n, bits) in [(8usize, vec![20usize, 50, 50, 50])].into_iter().chain(if thorough { vec![(4usize, vec![50usize, 20, 50, 50, 50])] } else { vec![] }) {
+        let q = he::chain(n, &bits);
+        let small = *q.iter().min().unwrap();
+        let mut t = small + 2;
+        while q.iter().any(|&p| gcd(p, t) != 1) || t % 2 == 0 {
+            t += 1;
+        }
+        for scheme in [Scheme::BFV, Scheme::BGV] {
+            out.push(ParamSpec::new(scheme, n, q.clone(), t));
+        }
+    }
+    out
+}
+
+/// data-level prime lists of a specification (model of the chain; the check verifies it against the library)
+fn model_levels(s: &ParamSpec) -> Vec<Vec<u64>> {
+    let first: Vec<u64> = if s.q.len() == 1 || s.special_enc { s.q.clone() } else { s.q[..s.q.len() - 1].to_vec() };
+    (0..first.len()).map(|i| first[..first.len() - i].to_vec()).collect()
+}
+
+fn bits_of(q: &[u64]) -> usize {
+    BigU::product(q).bits()
+}
+
+/// CKKS scale classes of a source: for every level u >= src the largest fresh scale 2^e such that the product scale
+/// (and the message) still fits level u -> mod_switch is accepted down to u and refused below
+fn ckks_scale_classes(levels: &[Vec<u64>], n: usize, src: usize, size: usize) -> Vec<u32> {
+    let k = size.max(2);
+    let logn = n.trailing_zeros() as i64;
+    let mut v: Vec<u32> = vec![];
+    for u in src..levels.len() {
+        let bits = bits_of(&levels[u]) as i64;
+        let e = (bits - 3 - (k as i64 - 2) * logn) / (k as i64 - 1) - 1;
+        let e = e.clamp(2, 200) as u32;
+        if !v.contains(&e) {
+            v.push(e);
+        }
+    }
+    v
+}
+
+fn targets(nlevels: usize) -> Vec<Tgt> {
+    let mut v: Vec<Tgt> = (0..nlevels).map(Tgt::Level).collect();
+    v.extend([Tgt::Key, Tgt::Zero, Tgt::Foreign]);
+    v
+}
+
+fn ct_cases(thorough: bool, rescale: bool) -> Vec<Case> {
+    let mut out = vec![];
+    for spec in specs(thorough) {
+        let levels = model_levels(&spec);
+        let l = levels.len();
+        for size in 2..=4usize {
+            for prep in [Prep::MulThenDown, Prep::DownThenMul] {
+                if size == 2 && prep == Prep::DownThenMul && spec.scheme != Scheme::CKKS {
+                    continue; // identical to MulThenDown
+                }
+                for src in 0..l {
+                    let scales = if spec.scheme == Scheme::CKKS { ckks_scale_classes(&levels, spec.n, src, size) } else { vec![0] };
+                    for &scale_log2 in &scales {
+                        let (next, to) = if rescale { (Op::RsNext, Op::RsTo) } else { (Op::MsNext, Op::MsTo) };
+                        for form in [Form::Inplace, Form::Dest, Form::New] {
+                            out.push(Case { spec: spec.clone(), obj: Obj::Ct, op: next, form, size, prep, src, tgt: Tgt::Next, scale_log2 });
+                        }
+                        for tgt in targets(l) {
+                            for form in [Form::Inplace, Form::Dest, Form::New] {
+                                out.push(Case { spec: spec.clone(), obj: Obj::Ct, op: to, form, size, prep, src, tgt, scale_log2 });
+                            }
+                        }
+                    }
+                }
+            }
+        }
+    }
+    out
+}
+
+fn pt_cases(thorough: bool) -> Vec<Case> {
+    let mut out = vec![];
+    for spec in specs(thorough) {
+        let levels = model_levels(&spec);
+        let l = levels.len();
+        for src in 0..l {
+            let scales: Vec<u32> = if spec.scheme == Scheme::CKKS {
+                let mut v = vec![];
+                for u in src..l {
+                    let e = (bits_of(&levels[u]) as i64 - 4).clamp(2, 400) as u32;
+                    if !v.contains(&e) {
+                        v.push(e);
+                    }
+                }
+                v
+            } else {
+                vec![0]
+            };
+            for &scale_log2 in &scales {
+                for form in [Form::Inplace, Form::Dest, Form::New] {
+                    out.push(Case { spec: spec.clone(), obj: Obj::Pt, op: Op::MsNext, form, size: 0, prep: Prep::MulThenDown, src, tgt: Tgt::Next, scale_log2 });
+                }
+                for tgt in targets(l) {
+                    for form in [Form::Inplace, Form::Dest, Form::New] {
+                        out.push(Case { spec: spec.clone(), obj: Obj::Pt, op: Op::MsTo, form, size: 0, prep: Prep::MulThenDown, src, tgt, scale_log2 });
+                    }
+                }
+            }
+        }
+    }
+    out
+}
+
+pub fn sections(cfg: &RunCfg) -> Vec<Box<dyn AnySection>> {
+    let seed = cfg.seed;
+    let thorough = cfg.thorough();
+    let lmax = if thorough { 6 } else { 4 };
+    let bound = |what: &str| {
+        format!(
+            "{what}: chains with 1..{lmax} data levels (prime-size patterns equal / ascending / descending / mixed, 20..59 bits, N in {{4,8{}}}), BFV+BGV (t in {{17,64{}}}, t>q_0) and CKKS; \
+             all ordered (source, target) pairs + key / zero / foreign ids; every API form; 3 message tuples per case",
+            if thorough { ",16" } else { "" },
+            if thorough { ",257,3" } else { "" }
+        )
+    };
+    let mut v: Vec<Box<dyn AnySection>> = vec![];
+    v.push(
+        E1::new(
+            "ct_mod_switch",
+            &bound("ciphertext sizes 2..4 (two preparation orders), mod_switch_to_next* / mod_switch_to*, CKKS scale classes per reachable level"),
+            ct_cases(thorough, false).into_iter(),
+            move |c: &Case| watched(c, seed, "ct_mod_switch"),
+        )
+        .deadline(ENGINE_DEADLINE)
+        .hang_key(hang_key),
+    );
+    v.push(
+        E1::new(
+            "ct_rescale",
+            &bound("ciphertext sizes 2..4 (two preparation orders), rescale_to_next* / rescale_to*, CKKS scale classes per reachable level"),
+            ct_cases(thorough, true).into_iter(),
+            move |c: &Case| watched(c, seed, "ct_rescale"),
+        )
+        .deadline(ENGINE_DEADLINE)
+        .hang_key(hang_key),
+    );
+    v.push(
+        E1::new(
+            "plain_mod_switch",
+            &bound("NTT-form plaintexts, mod_switch_to_next_plain* / mod_switch_plain_to*"),
+            pt_cases(thorough).into_iter(),
+            move |c: &Case| watched(c, seed, "plain_mod_switch"),
+        )
+        .deadline(ENGINE_DEADLINE)
+        .hang_key(hang_key),
+    );
+    v
 }
